@@ -52,11 +52,27 @@ pub enum Case {
 
 pub struct C09;
 
-fn enc<T: WritePacket + Send + Sync + Debug + Clone>(p: &T) -> Result<(i32, Vec<u8>, Vec<u8>), String> {
+thread_local! {
+    /// set by `crate_encode`: the value has no compound text component (those are re-spelled on decode)
+    static FRAMED_CHECK: std::cell::Cell<bool> = const { std::cell::Cell::new(false) };
+}
+
+fn enc<T: WritePacket + ReadPacket + PartialEq + Send + Sync + Debug + Clone>(p: &T) -> Result<(i32, Vec<u8>, Vec<u8>), String> {
     let mut body = Vec::new();
     block_on(p.write_to_buffer(&mut body)).map_err(|e| format!("encode error: {e}"))?;
     let mut framed = Vec::new();
     block_on(framed.write_packet(p.clone())).map_err(|e| format!("write_packet error: {e}"))?;
+    // the framed reader inverts the framed writer (frames within its fixed 10000-byte limit; text components
+    // are re-spelled on decode and are compared structurally elsewhere)
+    let plain = FRAMED_CHECK.with(|f| f.get());
+    if framed.len() <= 10_000 && plain {
+        let mut cur = Cursor::new(framed.clone());
+        match block_on(cur.read_packet::<T>()) {
+            Ok(v) if v == *p && cur.position() as usize == framed.len() => {}
+            Ok(v) => return Err(format!("FRAMED: read_packet(write_packet(v)) = {v:?} consuming {} of {} bytes, v = {p:?}", cur.position(), framed.len())),
+            Err(e) => return Err(format!("FRAMED: read_packet cannot read what write_packet wrote: {e}")),
+        }
+    }
     Ok((T::ID, body, framed))
 }
 
@@ -155,6 +171,7 @@ fn ord_rp(s: ResourcePackResult) -> i32 {
 /// the crate refused to encode.
 fn crate_encode(p: &Pkt) -> Result<(i32, Vec<u8>, Vec<u8>), String> {
     let nr = || "not representable".to_string();
+    FRAMED_CHECK.with(|f| f.set(!has_compound(p)));
     match p.clone() {
         Pkt::Handshake { protocol, host, port, next } => enc(&hs_sb::HandshakePacket {
             protocol_version: protocol,
@@ -426,7 +443,7 @@ fn check_packet(p: &Pkt) -> Result<(), (String, String)> {
     let (phase, dir, ref_id) = p.meta();
     let ref_body = p.body();
     let ref_frame = p.frame();
-    let (cid, cbody, cframe) = crate_encode(p).map_err(|e| (format!("encode-error:{kind}"), e))?;
+    let (cid, cbody, cframe) = crate_encode(p).map_err(|e| (if e.starts_with("FRAMED") { format!("framed-roundtrip:{kind}") } else { format!("encode-error:{kind}") }, e))?;
     // (a) id
     if cid != ref_id {
         return Err((format!("packet-id:{kind}"), format!("{kind}: crate id {cid:#x}, protocol assigns {ref_id:#x}")));
